@@ -183,7 +183,13 @@ partial def parseInstr : SExp → Option Instr
     let s ← optExpr sel
     let b ← body.mapM parseInstr
     some (.param name s b)
+  | .list [.atom "applyimports"] => some .applyImports
   | .list (.atom "usesets" :: names) => (names.mapM atomStr).map .useSets
+  | .list [.atom "number", e, .atom lvl, .list pats, .atom f] => do
+    let v ← optExpr e
+    let ps ← pats.mapM parseExpr
+    let fmt ← decodeStr f
+    some (.number v lvl ps fmt)
   | .list [.atom "withparam", .atom n, sel, .list body] => do
     let name ← decodeStr n
     let s ← optExpr sel
@@ -192,6 +198,14 @@ partial def parseInstr : SExp → Option Instr
   | _ => none
 
 def parseTemplate : SExp → Option Template
+  | .list [.atom "template", .list pats, name, mode, .atom prio, .atom prec, .list body] => do
+    let ps ← pats.mapM parseExpr
+    let n ← optStr name
+    let m ← optStr mode
+    let pr ← if prio = "none" then some none else prio.toInt?.map some
+    let pc ← prec.toNat?
+    let b ← body.mapM parseInstr
+    some { pats := ps, name := n, mode := m, prio := pr, body := b, prec := pc }
   | .list [.atom "template", .list pats, name, mode, .atom prio, .list body] => do
     let ps ← pats.mapM parseExpr
     let n ← optStr name
@@ -209,7 +223,28 @@ def parseAttrSet : SExp → Option AttrSet
     some { name := name, uses := us, body := b }
   | _ => none
 
+def parseKey : SExp → Option KeyDecl
+  | .list [.atom "key", .atom n, .list pats, use] => do
+    let name ← decodeStr n
+    let ps ← pats.mapM parseExpr
+    let u ← parseExpr use
+    some { name := name, pats := ps, use := u }
+  | _ => none
+
 def parseStylesheet : SExp → Option Stylesheet
+  | .list [.atom "stylesheet", .list globals, .list templates, .list sets, .list keys, .list strip] => do
+    let gs ← globals.mapM parseInstr
+    let ts ← templates.mapM parseTemplate
+    let as ← sets.mapM parseAttrSet
+    let ks ← keys.mapM parseKey
+    let st ← strip.mapM atomStr
+    some { templates := ts, globals := gs, attrSets := as, keys := ks, stripSpace := st }
+  | .list [.atom "stylesheet", .list globals, .list templates, .list sets, .list keys] => do
+    let gs ← globals.mapM parseInstr
+    let ts ← templates.mapM parseTemplate
+    let as ← sets.mapM parseAttrSet
+    let ks ← keys.mapM parseKey
+    some { templates := ts, globals := gs, attrSets := as, keys := ks }
   | .list [.atom "stylesheet", .list globals, .list templates] => do
     let gs ← globals.mapM parseInstr
     let ts ← templates.mapM parseTemplate
